@@ -37,6 +37,9 @@ def walk_traces(chk, events, files, max_depth=40, roots=None, label="walk"):
             raise ToolError("Trace_Game failed on %s: %s" % (r.path, (r.error or r.stdout[-1500:])))
         if st[0]["diameter"] != st[0]["events"] + 1:
             raise ToolError("trace not fully consumed: %s" % st[0])
+        bad = r.viols("ROOT") + r.viols("TRACE")
+        if bad:
+            raise ToolError("walk root is not a legal position / malformed trace: %s" % bad[0])
     return results, paths
 
 
